@@ -33,6 +33,7 @@ type Context struct {
 	// SequenceID represents a monotonic ID for the sequence.
 	// It increments during a jump.
 	sequenceID     int32
+	decoded        int32
 	committedRAT   *comp.RAT[RegisterType, int32]
 	transactionRAT *comp.RAT[RegisterType, transactionUnit]
 	// committedSequenceIDs holds, per register, the sequence ID of the
@@ -71,9 +72,13 @@ func (ctx *Context) Flush() {
 	ctx.pendingWriteMemoryIntention = make(map[int32]map[int]struct{})
 }
 
+// SequenceID returns the program-order tag of the instruction being decoded:
+// a counter in decode order. A tag derived from the pc (pc + epoch*1000) made
+// an instruction fetched after a backward jump look older than the in-flight
+// instructions of a program of more than 250 instructions.
 func (ctx *Context) SequenceID(pc int32) int32 {
-	// TODO Find better
-	return pc + ctx.sequenceID*1000
+	ctx.decoded++
+	return ctx.decoded
 }
 
 func (ctx *Context) IncSequenceID() {
